@@ -266,6 +266,12 @@ def run_tree_tie(ck, sq_cases, tag):
     reqs = [c for c in sq_cases if c.get("logql")]
     if not reqs:
         return
+    # the extracted planner runs on OCaml terms compiled with the cases: beyond ~8000 requests the compilation dominates (thorough tier:
+    # 36 000 requests kept ocamlopt busy for > 10 min and 3.5 GB): an evenly spaced sample of the requests is planned, all sites kept
+    cap = 8000
+    nall = len(reqs)
+    if nall > cap:
+        reqs = [reqs[(i * nall) // cap] for i in range(cap)]
     # the baseline request (harmless marker in the same position) of every case is planned as well: the segmented text for the hostile
     # request must be the marker's text with the marker replaced inside the value pieces (the instance of request_values_keep_statement_structure)
     ncase = len(reqs)
@@ -412,7 +418,7 @@ def run_tree_tie(ck, sq_cases, tag):
         ck.violation({"property": "C10", "kind": why, "logql": c["query"], "case": describe(reqs[c["id"]]),
                       "broken": "correspondence model/LogqlPlan.v + model/SqlPieces.v vs clickhouse_planner"}, no_input=True)
     t = ck.extra.setdefault("tree_level_tie", {})
-    t[tag] = {"logql_requests": len(reqs), "planned_by_model_and_code": n, "statements": nstmt, "pieces": npieces, "value_pieces": nvals,
+    t[tag] = {"logql_requests": nall, "logql_requests_planned_(sample_beyond_8000)": ncase, "planned_by_model_and_code": n, "statements": nstmt, "pieces": npieces, "value_pieces": nvals,
               "requests_whose_value_is_located_in_a_value_piece": located, "skipped": skipped,
               "stage_not_transcribed_in_LogqlPlan_v": unmodelled,
               "pairs_compared_piecewise_with_the_markers_text": ncmp,
